@@ -412,3 +412,27 @@ func EqualMem(a, b ethdb.Iteratee, prefix []byte) (bool, []byte) {
 	}
 	return true, nil
 }
+
+// CopyMem returns an independent copy of a memorydb.
+func CopyMem(mem *memorydb.Database) *memorydb.Database {
+	out := memorydb.New()
+	it := mem.NewIterator(nil, nil)
+	defer it.Release()
+	for it.Next() {
+		out.Put(cp(it.Key()), cp(it.Value()))
+	}
+	return out
+}
+
+// MaterialiseKVOn applies the units of log with Seq <= cutSeq to a copy of base (the image a
+// restarted process started from) and returns it.
+func MaterialiseKVOn(base *memorydb.Database, log []KVOp, cutSeq uint64) *memorydb.Database {
+	mem := CopyMem(base)
+	for i := range log {
+		if log[i].Seq > cutSeq {
+			break
+		}
+		applyOp(mem, &log[i])
+	}
+	return mem
+}
